@@ -63,14 +63,14 @@ CLAIMED = {
     "C09": dict(
         engine="E1-kernel-in-the-loop",
         technique="Coq proof (invariants by induction over executions of the Popen state machine on a process model; finite sweep over all exit codes and signals) + kernel-in-the-loop correspondence: the real Popen methods run on a virtual process and clock served by the extracted model",
-        text="Theorems C09_*: every exit code 0..255 and signal 1..126 decodes truthfully; a reported status is the decoding of the raw status of a zombie that the same operation reaped; while the child never exits poll/wait_timeout report None and wait does not return; once a status is known every later operation history returns it, pid() is absent and NO system call is made; a child reaped elsewhere yields Undetermined and the call returns; with job control (Kernel/JobCtl.v) the library's calls are served exactly as by the plain kernel, a status handed to one of them is that of a terminated child which that call reaps, and a status for a child that is alive afterwards goes only to a waitpid that passes WUNTRACED, which the library model cannot issue (a stopped child is never taken for a finished one).  The machine is tied to the code by running the real methods against the extracted kernel model call by call (waitpid/kill/clock/sleep interposed) and comparing every call and return value with the machine's.",
+        text="Theorems C09_*: every exit code 0..255 and signal 1..126 decodes truthfully; a reported status is the decoding of the raw status of a zombie that the same operation reaped; while the child never exits poll/wait_timeout report None and wait does not return; once a status is known every later operation history returns it, pid() is absent and NO system call is made; a child reaped elsewhere yields Undetermined and the call returns; with job control (Kernel/JobCtl.v) the library's calls are served exactly as by the plain kernel, a status handed to one of them is that of a terminated child which that call reaps, and a status for a child that is alive afterwards goes only to a waitpid that passes WUNTRACED, which the library model cannot issue (a stopped child is never taken for a finished one); a blocking waitpid interrupted by a signal handler of the caller (EINTR) is reported as that error and leaves the handle Running, only ECHILD means reaped elsewhere.  The machine is tied to the code by running the real methods against the extracted kernel model call by call (waitpid/kill/clock/sleep interposed) and comparing every call and return value with the machine's.",
         note="Trusted: Coq kernel; K's process/wait semantics (PopenSM.pworld) model Linux, validated not proved; simdrive interposers; spsim glue; the libc crate's WIF* bit definitions are modelled in Lib/Status.v and tied to real wait statuses: real children exiting with codes 0..255 (17 in the quick tier) and dying of every fatal signal are waited for by join()/capture(), the reported status is compared with the cause and with Lib/Status.v applied to the raw status logged at waitpid, whose options must be none or WNOHANG.  Job-control stops are in the kernel model (extracted), a stopped child keeps its scheduled exit instant (simplification).",
         design="5/C09"),
     "C10": dict(
         engine="E1-kernel-in-the-loop",
         technique="Coq proof (case analysis of the state machine, induction over operation histories) + kernel-in-the-loop correspondence with an interposed kill() log",
         text="Theorems C10_*: on a Running handle a signalling call issues exactly one kill with exactly the requested signal (for every signal number); no other operation ever sends a signal; after termination was observed (any status, Undetermined included) or after our own waitpid reaped the child, every later history issues no system call at all and signalling calls return success.",
-        note="Trusted: as C09.  A kill that hits a pid reaped by foreign code before any query observed it cannot be prevented by the library and is outside the property's statement.  Lib/PopenSM.v abstracts waitpid's options to {0, WNOHANG}: the interposer forwards every other option bit and any such bit breaks the tie; Kernel/JobCtl.v (extracted into spsim) says what such a call observes (a stop report for WUNTRACED), theorem C10_stop_not_observed_by_library says the library's own calls never see one, and a monitor reports a signalling call that sent nothing to a child that is alive and was never reaped.",
+        note="Trusted: as C09.  A kill that hits a pid reaped by foreign code before any query observed it cannot be prevented by the library and is outside the property's statement.  Lib/PopenSM.v abstracts waitpid's options to {0, WNOHANG}: the interposer forwards every other option bit and any such bit breaks the tie; Kernel/JobCtl.v (extracted into spsim) says what such a call observes (a stop report for WUNTRACED), theorem C10_stop_not_observed_by_library says the library's own calls never see one, and a monitor reports a signalling call that sent nothing to a child that is alive and was never reaped.  Real children started with every setpgid / detached combination are signalled (terminate, kill, send_signal of several numbers, interleaved with poll / wait) and the logged kill(2) calls must be exactly one per call with the child's own positive pid and the requested signal, none after termination was observed.",
         design="5/C10"),
     "C11": dict(
         engine="E1-kernel-in-the-loop",
